@@ -102,10 +102,23 @@ Qed.
 Lemma vardef_eta : forall vd, {| vd_name := vd_name vd; vd_type := vd_type vd; vd_default := vd_default vd; vd_dirs := vd_dirs vd |} = vd.
 Proof. destruct vd; reflexivity. Qed.
 
-(* without Upload variables the mapper only reorders the definitions *)
+Lemma reserved_names_nil : forall vds, no_upload_vars vds = true -> reserved_names vds = [].
+Proof.
+  unfold reserved_names. induction vds as [|vd r IH]; simpl; intros H; auto.
+  apply andb_true_iff in H. destruct H as [H1 H2]. apply negb_true_iff in H1. rewrite H1. auto.
+Qed.
+
+Lemma assign_names_avoid_nil : forall vds k, assign_names_avoid [] vds k = assign_names vds k.
+Proof. induction vds as [|vd r IH]; simpl; intros; auto. rewrite !IH. reflexivity. Qed.
+
+(* without Upload variables the mapper (as it was and as repaired) only reorders the definitions *)
 Lemma remap_perm : forall q vds, no_upload_vars vds = true -> Permutation (remap q vds) vds.
 Proof.
   intros q vds H. unfold remap.
+  rewrite (reserved_names_nil vds H), assign_names_avoid_nil.
+  assert (En : (if q_remap_collision q then assign_names vds O else assign_names vds O) = assign_names vds O)
+    by (destruct (q_remap_collision q); auto).
+  rewrite En. clear En.
   destruct (assign_names_keys vds O H) as [Ek Es].
   set (named := assign_names vds O) in *.
   assert (Hnu : forallb (fun cv => negb (is_upload_var (snd cv))) named = true).
@@ -116,18 +129,14 @@ Proof.
   { rewrite Ek. apply FinFun.Injective_map_NoDup; [intros a b; apply letter_name_inj | apply seq_NoDup]. }
   assert (Hmap : forall l, (forall cv, In cv l -> In cv named) ->
                            map (fun cv : name * vardef =>
-                                  {| vd_name := if q_remap_collision q || negb (is_upload_var (snd cv))
-                                                then match assoc_name (fst cv) (map (fun cv0 => (fst cv0, vd_name (snd cv0))) named) with
-                                                     | Some o => o | None => fst cv end
-                                                else vd_name (snd cv);
+                                  {| vd_name := match assoc_name (fst cv) (map (fun cv0 => (fst cv0, vd_name (snd cv0))) named) with
+                                                | Some o => o | None => fst cv end;
                                      vd_type := vd_type (snd cv); vd_default := vd_default (snd cv); vd_dirs := vd_dirs (snd cv) |}) l
                            = map snd l).
   { induction l as [|cv r IH]; simpl; intros Hl; auto. rewrite IH by (intros; apply Hl; auto). f_equal.
     assert (Hin : In cv named) by (apply Hl; auto).
     destruct cv as [k vd]. simpl.
-    rewrite (assoc_name_map named k vd Hnd Hin).
-    rewrite forallb_forall in Hnu. specialize (Hnu _ Hin). simpl in Hnu. rewrite Hnu. rewrite orb_true_r.
-    apply vardef_eta. }
+    rewrite (assoc_name_map named k vd Hnd Hin). apply vardef_eta. }
   rewrite Hmap.
   - rewrite <- Es. apply Permutation_map. apply sort_by_name_perm.
   - intros cv Hin. eapply Permutation_in; [apply sort_by_name_perm|]. auto.
